@@ -88,22 +88,44 @@ type Backend interface {
 	Raw() any
 }
 
+// HStruct is a gob-registered struct value used by the transfer generators.
+type HStruct struct {
+	A int
+	B string
+	C []int
+}
+
 func tokOf(v interface{}) int64 {
 	switch x := v.(type) {
 	case nil:
 		return 0
 	case int:
+		if x == 0 {
+			return -1 // a non-nil interface holding the zero int
+		}
+
 		return int64(x)
 	case int64:
 		return x
+	case HStruct:
+		if x.B != "x" || len(x.C) != 1 || x.C[0] != x.A {
+			return -778
+		}
+
+		return int64(x.A)
 	default:
 		return -777
 	}
 }
 
 func valOf(t int64) interface{} {
-	if t == 0 {
+	switch {
+	case t == 0:
 		return nil
+	case t == -1:
+		return int(0)
+	case t >= 1000:
+		return HStruct{A: int(t), B: "x", C: []int{int(t)}}
 	}
 
 	return int(t)
